@@ -411,6 +411,14 @@ class Evaluator:
                 if self._may_raise_stmt(b):
                     for h in s.handlers:
                         ht = u(h.type) if h.type is not None else "BaseException"
+                        subs = [n for n in ast.walk(b) if isinstance(n, ast.Subscript) and isinstance(n.ctx, ast.Load) and not isinstance(n.slice, ast.Slice)]
+                        if ht == "KeyError" and len(subs) == 1 and not any(isinstance(n, ast.Call) for n in ast.walk(b)):
+                            # `try: ... d[k] ... except KeyError` is the membership idiom: same atom as `k in d`
+                            kv = self.ev(subs[0].slice, st)
+                            present = st.atom(st.vkey(f"{vtext(kv)} In {self.subst_text(subs[0].value, st)}"))
+                            if not present:
+                                raise _Caught(h)
+                            continue
                         if st.atom(st.vkey(f"raises({u(b)[:70]} -> {ht})")):
                             raise _Caught(h)
                 try:
